@@ -15,12 +15,20 @@ Reading guide.
 * `Ymq.FInt.FI` is the word-exact model of `FInt<N>` (`N` words + top word), `value` its integer,
   `Norm` the code's normal form, `WfN N` "`N` words below 2^64", `Fmod N = 2^(64N) + 1`.
   `f … = some r` means: no panic site (debug assertion, overflow check, index check) is reached.
-* PARTIAL BY DESIGN (no theorem here, tied to the schoolbook specification by the correspondence
-  and oracle streams only): Karatsuba (`Poly::karatsuba`, the product inside `FInt::mul`), the
-  Hanrot–Quercia–Zimmermann middle product `_middlemul`, Newton `_inv_mod_xn`/`_div_mod_xn`,
-  product and remainder trees (`_product_tree`, `_multi_eval`), `MultiZmodP::ntt_inplace`.
+* `Ymq.Kronecker.cycFft N` is the transform product as the code forms it: packed words as `FInt<N>` with
+  top word 0, the word-level model `Ymq.FInt.mulfft`, values read back. `mulfft_exact` proves that it
+  meets `ExactCyc`, so `kronecker_cyclic_fft` has no hypothesis about the transform.
+* `Ymq.PolyMul.*` (Ymq/Model/{PolyMul,PolySeries,PolyTree}.lean) are buffer/value-level models of
+  `arith_poly.rs` over abstract coefficient operations `Ops α`; `Hom o φ` says that `φ` maps them to the
+  operations of a commutative ring (`natOps_hom`: residues modulo `n` to `ZMod n`).
+* NOT proved (tied to the schoolbook specification by the correspondence and oracle streams only):
+  the Karatsuba routine inside `FInt::mul` (the model takes the exact product of the word vectors),
+  `MultiZmodP::ntt_inplace` at word level (`convolve_modn_ntt` is the exact convolution inside the
+  `arith_poly` models), the branch `|a| ≥ n` of `Poly::roots_eval`, `mul_fft`.
 -/
 import Ymq.Lemmas.KroneckerModel
+import Ymq.Lemmas.KroneckerFft
+import Ymq.Lemmas.FIntFft
 import Ymq.Lemmas.FIntRoot
 import Ymq.Lemmas.CrtLemmas
 import Ymq.Lemmas.PolyDft
@@ -100,10 +108,27 @@ theorem pack_unpack (N L logpack stride n : Nat) (p q : Array Nat)
       _ = (2 * 2 ^ logpack - 1) * stride := Nat.mul_comm _ _
       _ ≤ N := hfit
 
+/-- non-vacuity of `pack_unpack`: `N = 16`, `A = 2`, `stride = 5`, `n = 7`, one transform word -/
+example : (∀ a, packWord 5 (2 ^ 1) #[1, 6] a = packVal (2 ^ 1) (W ^ 5) (coef #[1, 6]) a) ∧
+    wordProd (2 ^ 1) (W ^ 5) 1 (coef #[1, 6]) (coef #[3, 2]) 0 < W ^ 16 ∧
+    digit 16 5 (wordProd (2 ^ 1) (W ^ 5) 1 (coef #[1, 6]) (coef #[3, 2]) 0) 1 =
+      some (digitSum (2 ^ 1) 1 (coef #[1, 6]) (coef #[3, 2]) 0 1) := by
+  apply pack_unpack 16 1 1 5 7 #[1, 6] #[3, 2] ?_ ?_ (by decide) (by decide) (by decide) 0 1 (by decide)
+  · intro u
+    rcases u with _ | _ | u
+    · decide
+    · decide
+    · rw [coef_ge _ _ (by simp)]; decide
+  · intro u
+    rcases u with _ | _ | u
+    · decide
+    · decide
+    · rw [coef_ge _ _ (by simp)]; decide
+
 /-- the exact cyclic product used by the driver satisfies the hypothesis `ExactCyc` of
 `kronecker_cyclic` (non-vacuity of that hypothesis) -/
 theorem cycExact_exact (N : Nat) : ExactCyc N (cycExact N) := by
-  intro x y hxy hpos hle ⟨m, hm⟩
+  intro x y hxy hpos hle ⟨m, hm⟩ _ _
   unfold cycExact
   have h1 : ¬ (x.size ≠ y.size) := by omega
   have h2 : ¬ (x.size = 0 ∨ x.size ≠ 2 ^ x.size.log2) := by
@@ -120,7 +145,8 @@ theorem cycExact_exact (N : Nat) : ExactCyc N (cycExact N) := by
 (`k = ⌈nbits/64⌉` words), every power-of-two `size ≤ 524288` (every arm of the dispatch table),
 every operand length `0 < |p| ≤ size`, `|q| ≤ size`, coefficients `< n`, and every output window
 `offset + reslen ≤ size`: if the Fermat transform product `cyc N` is the exact cyclic product of the
-word vectors modulo `2^(64N)+1`, then the model of `convolve_modn` (after the fix) does not reach a
+word vectors (below `2^(64N)`) modulo `2^(64N)+1` for the word counts `N = 2^a ≤ 256` of the table
+(hypothesis `ExactCyc`; discharged for the word-level `mulfft` in `kronecker_cyclic_fft`), then the model of `convolve_modn` (after the fix) does not reach a
 panic site and returns `res[t] = (Σ_{a+b ≡ offset+t (mod size)} p[a]·q[b]) · R⁻¹ mod n`, i.e. the
 Montgomery form of the schoolbook cyclic convolution coefficient `offset + t`. -/
 theorem kronecker_cyclic (cyc : Nat → Array Nat → Array Nat → Option (Array Nat))
@@ -130,7 +156,8 @@ theorem kronecker_cyclic (cyc : Nat → Array Nat → Array Nat → Option (Arra
     (hp : ∀ u, coef p u < n) (hq : ∀ u, coef q u < n)
     (hps : 0 < p.size) (hps2 : p.size ≤ size) (hqs : q.size ≤ size)
     (hsize : ∃ m, size = 2 ^ m) (h2 : 2 ≤ size) (hmax : size ≤ 524288)
-    (hwin : offset + reslen ≤ size) (hcyc : ∀ N, ExactCyc N (cyc N)) :
+    (hwin : offset + reslen ≤ size)
+    (hcyc : ∀ N, (∃ a, N = 2 ^ a) → N ≤ 256 → ExactCyc N (cyc N)) :
     ∃ res, Kronecker.convolve true cyc n k rinv nbits size p q reslen offset = some res ∧ res.size = reslen ∧
       ∀ t < reslen, coef res t = cycCoef size (coef p) (coef q) (offset + t) * rinv % n := by
   -- the table accepts (nbits, size)
@@ -141,6 +168,7 @@ theorem kronecker_cyclic (cyc : Nat → Array Nat → Array Nat → Option (Arra
     all_goals first | exact ⟨_, rfl⟩ | (exfalso; omega)
   obtain ⟨⟨fsize, logpack, stride⟩, harm⟩ := hdisp
   obtain ⟨N, hN, ok⟩ := dispatch_ok nbits size fsize logpack stride harm hb
+  obtain ⟨hNpow, hN256⟩ := fsize_table_ok fsize N hN
   unfold Kronecker.convolve
   rw [harm]
   simp only
@@ -173,7 +201,7 @@ theorem kronecker_cyclic (cyc : Nat → Array Nat → Array Nat → Option (Arra
     have hroots := ok.roots
     rw [hl0, pow_zero, Nat.div_one] at hroots
     exact convolveModn_unpacked (cyc N) n k rinv N size logpack p q reslen offset hn hp hq hps hps2 hqs
-      (by omega) (by omega) ⟨m, hm⟩ hroots hdig (by omega) hsmall hwin (hcyc N)
+      (by omega) (by omega) ⟨m, hm⟩ hroots hdig (by omega) hsmall hwin (hcyc N hNpow hN256)
   · simp only [if_neg hst] at hdig s1 s2 s3
     have hAle := ok.pack h2
     have hlm : logpack ≤ m := by
@@ -184,7 +212,7 @@ theorem kronecker_cyclic (cyc : Nat → Array Nat → Array Nat → Option (Arra
     obtain ⟨res, h1, h2', h3⟩ := convolveModn_packed (cyc N) n k rinv N size logpack stride p q reslen offset
       hn hp hq hps hps2 hqs hst (Nat.div_pos hAle hApos) (Nat.div_mul_cancel hdvd).symm
       ⟨m - logpack, by rw [hm, Nat.pow_div hlm (by decide)]⟩ ok.roots hdig ok.fit ok.copy
-      (by simp only [MINT_WORDS] at s1; omega) (by omega) (by omega) hsmall (hcyc N)
+      (by simp only [MINT_WORDS] at s1; omega) (by omega) (by omega) hsmall (hcyc N hNpow hN256)
     exact ⟨res, h1, h2', fun t ht => h3 t ht (by omega)⟩
 
 /-- non-vacuity: all hypotheses of `kronecker_cyclic` are met by `n = 7` (3 bits, `R⁻¹ = 4`),
@@ -193,7 +221,56 @@ example : ∃ res, Kronecker.convolve true cycExact 7 1 4 3 8 #[1, 2, 3] #[4, 5]
     ∀ t < 8, coef res t = cycCoef 8 (coef #[1, 2, 3]) (coef #[4, 5]) (0 + t) * 4 % 7 := by
   apply kronecker_cyclic cycExact 7 1 4 3 8 #[1, 2, 3] #[4, 5] 8 0 (by decide) (by decide) (by decide)
     (by decide) (by decide) ?_ ?_ (by decide) (by decide) (by decide) ⟨3, by decide⟩ (by decide)
-    (by decide) (by decide) cycExact_exact
+    (by decide) (by decide) (fun N _ _ => cycExact_exact N)
+  · intro u
+    rcases u with _ | _ | _ | u
+    · decide
+    · decide
+    · decide
+    · rw [coef_ge _ _ (by simp)]; decide
+  · intro u
+    rcases u with _ | _ | u
+    · decide
+    · decide
+    · rw [coef_ge _ _ (by simp)]; decide
+
+/-- **The word-level `mulfft` is an exact cyclic product**: `ExactCyc N (cycFft N)` for every word
+count `N = 2^a ≤ 256` (every `N` of the dispatch table: `fsize_table_ok`). `cycFft` turns the packed
+words into `FInt<N>` with top word 0 as `_convolve_modn` does, runs the word-level model of `mulfft`
+(recursive `fft` forward on both operands, `FInt::mul` pointwise, `fft` inverse) and reads the
+values back: for `2^m ≤ 256N` words below `2^(64N)` no panic site is reached (twiddle exponents within
+`u32`, shifts within range, all `debug_assert!(is_reduced)`) and entry `i` is
+`(Σ_{a+b ≡ i (mod 2^m)} x_a·y_b) mod (2^(64N)+1)` in canonical form.
+Built on `fft_spec`/`mulfft_spec` below, i.e. on `dft_conv` instantiated in `ℤ/(2^(64N)+1)` with the
+root `√2^(256N/2^m)` (`root_half`). The only unproved ingredient is the Karatsuba routine inside
+`FInt::mul`, for which the model takes the exact product. -/
+theorem mulfft_exact (N a : Nat) (hNa : N = 2 ^ a) (hN : N ≤ 256) : ExactCyc N (cycFft N) :=
+  cycFft_exact N a hNa hN
+
+/-- **`convolve_modn` over the word-level transform is the cyclic convolution**: `kronecker_cyclic`
+with `cyc = cycFft` and no hypothesis on the transform. For every modulus of `1..500` bits, every
+power-of-two `size ≤ 524288`, operands of any admissible lengths with coefficients `< n` and every
+output window, the composed model (dispatch table, packing, word-level `mulfft`, digit extraction,
+`redc_large`, scatter with wrap-around) reaches no panic site and returns the Montgomery form of
+the schoolbook cyclic convolution. -/
+theorem kronecker_cyclic_fft (n k rinv nbits size : Nat) (p q : Array Nat) (reslen offset : Nat)
+    (hn : 0 < n) (hnb : n < 2 ^ nbits) (hb1 : 0 < nbits) (hb : nbits ≤ 500)
+    (hk : k = (nbits + 63) / 64)
+    (hp : ∀ u, coef p u < n) (hq : ∀ u, coef q u < n)
+    (hps : 0 < p.size) (hps2 : p.size ≤ size) (hqs : q.size ≤ size)
+    (hsize : ∃ m, size = 2 ^ m) (h2 : 2 ≤ size) (hmax : size ≤ 524288)
+    (hwin : offset + reslen ≤ size) :
+    ∃ res, Kronecker.convolve true cycFft n k rinv nbits size p q reslen offset = some res ∧ res.size = reslen ∧
+      ∀ t < reslen, coef res t = cycCoef size (coef p) (coef q) (offset + t) * rinv % n :=
+  kronecker_cyclic cycFft n k rinv nbits size p q reslen offset hn hnb hb1 hb hk hp hq hps hps2 hqs hsize h2 hmax
+    hwin (fun N ⟨a, ha⟩ hN => cycFft_exact N a ha hN)
+
+/-- non-vacuity: the same instance (`n = 7`, `size = 8`) through the word-level transform -/
+example : ∃ res, Kronecker.convolve true cycFft 7 1 4 3 8 #[1, 2, 3] #[4, 5] 8 0 = some res ∧ res.size = 8 ∧
+    ∀ t < 8, coef res t = cycCoef 8 (coef #[1, 2, 3]) (coef #[4, 5]) (0 + t) * 4 % 7 := by
+  apply kronecker_cyclic_fft 7 1 4 3 8 #[1, 2, 3] #[4, 5] 8 0 (by decide) (by decide) (by decide)
+    (by decide) (by decide) ?_ ?_ (by decide) (by decide) (by decide) ⟨3, by decide⟩ (by decide)
+    (by decide) (by decide)
   · intro u
     rcases u with _ | _ | _ | u
     · decide
@@ -333,6 +410,49 @@ theorem root_half (N k : Nat) (hk : 0 < k) (hdvd : 2 ^ k ∣ 256 * N) :
   rw [this]
   exact Nat.modEq_zero_iff_dvd.2 (dvd_refl _)
 
+/-- **`FInt::mul` multiplies residues** (both `top = 1` shortcuts and the general branch
+`FInt(z[0], 0).sub(&FInt(z[1], 0))` on the two halves of the double-length product): on normal
+forms no panic site is reached, the result is a normal form and its residue is the product.
+`vz N x` is the residue of `x` in `ZMod (2^(64N)+1)`. The double-length product itself (a Karatsuba
+routine in the code) is taken exact by the model. -/
+theorem mul_spec {N : Nat} (x y : FI) (hN : 0 < N) (hx : WfN N x) (hy : WfN N y)
+    (hnx : Norm x) (hny : Norm y) :
+    ∃ r, mul x y = some r ∧ WfN N r ∧ Norm r ∧ vz N r = vz N x * vz N y :=
+  mul_spec' x y hN hx hy hnx hny
+
+example : mul ⟨[W - 1], 0⟩ ⟨[W - 1], 0⟩ = some ⟨[4], 0⟩ := by decide
+
+/-- **The word-level recursive `fft` is the radix-2 recursion of `dft_conv`** (`Ymq.Dft.fftRec`) in
+`ℤ/(2^(64N)+1)`: for `2^k` entries in normal form, `k < 32`, twiddle exponents within `u32`
+(`128·2^k·N < 2^32`), `2^k ∣ 128N` or `2^k = 256N`, and `depth + k ≤ 128N`, the model (strided even/odd
+recursion, `twiddle(idx, k)` resp. `twiddle(2^k - idx, k)`, `butterfly`, the length-1 and length-2
+base cases, `shr(depth + …)` in the inverse direction) reaches no panic site, returns normal forms,
+and entry `j` times `2^(depth+k)` (inverse direction; `1` forward) is `fftRec k ω (residues of xs) j`
+with `ω = √2^(256N/2^k)` forward and `ω⁻¹ = ω^(2^k-1)` inverse (`rt N k fwd`). -/
+theorem fft_spec {N : Nat} (hN : 0 < N) (d : FI) (fwd : Bool) (k : Nat) (xs : List FI) (depth : Nat)
+    (hlen : xs.length = 2 ^ k) (hg : Good N xs) (hk : k < 32) (hb : 128 * 2 ^ k * N < 2 ^ 32)
+    (hdiv : 2 ^ k ∣ 128 * N ∨ 2 ^ k = 256 * N) (hdep : depth + k ≤ 128 * N) :
+    ∃ ys, fft k xs depth fwd = some ys ∧ ys.length = 2 ^ k ∧ Good N ys ∧
+      ∀ j, j < 2 ^ k →
+        vz N (ys.getD j d) * (if fwd then 1 else 2 ^ (depth + k)) =
+          Ymq.Dft.fftRec k (rt N k fwd) (fun i => vz N (xs.getD i d)) j :=
+  Ymq.FInt.fft_spec hN d fwd k xs depth hlen hg hk hb hdiv hdep
+
+/-- **`mulfft` is the cyclic convolution modulo `2^(64N)+1`** (`dft_conv` instantiated by the
+word-level model): forward `fft` of both operands, `FInt::mul` pointwise, inverse `fft`; for `2^k`
+entries in normal form (`Good`), `k < 32`, `128·2^k·N < 2^32`, `2^k ∣ 128N` or `2^k = 256N`: no panic
+site, normal forms, and entry `m` has residue `Σ_a p1[a]·p2[(m - a) mod 2^k]`. -/
+theorem mulfft_spec {N : Nat} (hN : 0 < N) (d : FI) (k : Nat) (p1 p2 : List FI)
+    (h1 : p1.length = 2 ^ k) (h2 : p2.length = 2 ^ k) (g1 : Good N p1) (g2 : Good N p2)
+    (hk : k < 32) (hb : 128 * 2 ^ k * N < 2 ^ 32) (hdiv : 2 ^ k ∣ 128 * N ∨ 2 ^ k = 256 * N) :
+    ∃ out, mulfft N p1 p2 = some out ∧ out.length = 2 ^ k ∧ Good N out ∧
+      ∀ m, m < 2 ^ k → vz N (out.getD m d) =
+        Ymq.Dft.cyc (2 ^ k) (fun i => vz N (p1.getD i d)) (fun i => vz N (p2.getD i d)) m :=
+  Ymq.FInt.mulfft_spec hN d k p1 p2 h1 h2 g1 g2 hk hb hdiv
+
+/-- `N = 1`, length 2: `(3 + 5X)(7 + 11X) mod (X² - 1) = 76 + 68X` -/
+example : mulfft 1 [⟨[3], 0⟩, ⟨[5], 0⟩] [⟨[7], 0⟩, ⟨[11], 0⟩] = some [⟨[76], 0⟩, ⟨[68], 0⟩] := by decide
+
 end FIntSpecs
 
 /-! ## Residue number system `MultiZmodP` -/
@@ -350,8 +470,11 @@ theorem crt_unique (ps : List Nat) (hw : 0 < ps.length) (hco : ps.Pairwise Nat.C
     ∃! q, q < ps.length ∧ V + q * ps.prod = ∑ i, xs i * (ps.prod / ps.get i) :=
   Ymq.Crt.crt_unique' ps hw hco hpos xs hxs V hV hc
 
-example : [3, 5].Pairwise Nat.Coprime ∧ (7 : Nat) < [3, 5].prod ∧
-    7 ≡ 2 * ([3, 5].prod / 3) [MOD 3] ∧ 7 ≡ 4 * ([3, 5].prod / 5) [MOD 5] := by decide
+/-- non-vacuity: `p = (3, 5)`, `V = 7`, `xs = (2, 4)`: `2·5 + 4·3 = 22 = 7 + 1·15` -/
+example : ∃! q, q < [3, 5].length ∧
+    7 + q * [3, 5].prod = ∑ i : Fin [3, 5].length, (if i.val = 0 then 2 else 4) * ([3, 5].prod / [3, 5].get i) :=
+  crt_unique [3, 5] (by decide) (by decide) (by decide) (fun i => if i.val = 0 then 2 else 4) (by decide) 7
+    (by decide) (by decide)
 
 /-- **Value assembled by `_crt`**: with the right quotient `q`, `T = pprods_modn[q] + Σ xs_j·crt_p_modn[j]`
 is congruent to the reconstructed integer `V` modulo `n` (`crt_p_modn[j] ≡ P/p_j`,
@@ -380,7 +503,12 @@ theorem crt_q_estimate_partial {w : Nat} (P q V M hi Wd : Nat) (xs c : Fin w →
     (∑ i, xs i * (c i / M + 1)) / Wd / hi = q :=
   Ymq.Crt.q_estimate' P q V M hi Wd xs c hM hWd hhi hS hV hlo hup hxs hq
 
-example : (0 : Nat) < 1 ∧ 2 * 1 + 3 ≤ 5 := by decide
+/-- non-vacuity: `P = 101·103`, `V = 1000`, `xs = (96, 15)`, `c = (103, 101)`, `q = 1`; scale `M = 2`,
+`Wd = 128`, `hi = 40`: `(96·52 + 15·51)/128/40 = 1` -/
+example : (∑ i : Fin 2, (if i.val = 0 then 96 else 15) * ((if i.val = 0 then 103 else 101) / 2 + 1)) / 128 / 40 = 1 :=
+  crt_q_estimate_partial (w := 2) 10403 1 1000 2 40 128 (fun i => if i.val = 0 then 96 else 15)
+    (fun i => if i.val = 0 then 103 else 101) (by decide) (by decide) (by decide) (by decide) (by decide)
+    (by decide) (by decide) (by decide) (by decide)
 
 /-- **The table `NTT_PRIMES`** (translated from the source on every run): the moduli are pairwise
 coprime (hypothesis of `crt_unique`), each is `≡ 1 (mod 2^49)` and lies in `(2^58, 2^59)`,
@@ -411,10 +539,9 @@ and odd entries with `ω²`, twiddle the odd half by `ω^j`, butterfly) computes
 `2^k`: `shr` / `div_pow2`);
 (3) forward transforms, pointwise product, inverse transform = `2^k` times the cyclic convolution
 (`mulfft`, `convolve_modn_ntt`).
-This is a statement about the algebraic recursion; its instantiation by the word-level `fft`
-model (`Ymq.FInt.fft`, hypothesis `ExactCyc` of `kronecker_cyclic`) goes through `FInt::mul`, whose
-Karatsuba routine is tied to the specification by K/O only. `root_half` shows that the code's
-twiddle root meets the hypothesis. -/
+This is the statement about the algebraic recursion; `fft_spec`/`mulfft_spec` instantiate it by the
+word-level model of the Fermat transform (`root_half`: the code's twiddle root meets the hypothesis).
+For `MultiZmodP::ntt_inplace` it is not instantiated down to words (`ntt_table_ok` gives the roots). -/
 theorem dft_conv {R : Type*} [CommRing R] (k : Nat) (ω ω' : R)
     (hω : k = 0 ∨ ω ^ 2 ^ (k - 1) = -1) (h0 : k = 0 → ω = 1) (hinv : ω * ω' = 1) (f g : Nat → R) :
     (∀ j < 2 ^ k, fftRec k ω f j = dft (2 ^ k) ω f j) ∧
